@@ -42,7 +42,7 @@ def main():
 
     def worker(k):
         w = f"{BASE}/w{k}"; repo = f"{w}/repo"; cur = None
-        env = dict(os.environ, CARGO_NET_OFFLINE="true", VERIF_EVIDENCE_DIR=f"{w}/evidence")
+        env = dict(os.environ, CARGO_NET_OFFLINE="true", VERIF_EVIDENCE_DIR=f"{w}/evidence", H264_REPO=repo)
         while True:
             try:
                 patch, prop = q.get_nowait()
